@@ -18,7 +18,7 @@ NUMVAL = z3.Function("numval", R, R)                      # the number it denote
 TRUSTED_PARSE = ("model:numpy np.array(list of strings, dtype=np.float32): ValueError iff some string is not a number literal, else the "
                  "array of the numbers they denote (float32 rounding: S2)")
 
-TRUSTED = ("model:numpy np.array(list, dtype=str) = the list; np.array(SortedSet) = its ascending enumeration; np.unique(xs): len <= len(xs), equal iff xs has no duplicate; np.arange; "
+TRUSTED = ("model:numpy np.array(list, dtype=str) = the list; np.array(SortedSet) = its ascending enumeration; np.array(list of scalars) = the same sequence; np.unique(xs): len <= len(xs), equal iff xs has no duplicate; np.arange; "
            "np.argsort(xs) = a permutation sorting xs (non-decreasing), with its inverse")
 
 
@@ -56,6 +56,14 @@ def npsort(self, e, st, spec):
     if name == "np.array" and len(e.args) == 1 and not kw:
         from ..heap import set_of, wf_set
         v = self.ev(e.args[0], st, spec)
+        if isinstance(v, V.Opt) and isinstance(v.val, SList):
+            self.oblige(st, z3.Not(v.isnone), f"not-None@{e.lineno}:np.array", "exception-freedom", e.lineno,
+                        "np.array(None) is a 0-d object array, not the 1-d array the code goes on to use")
+            v = v.val
+        if isinstance(v, SList) and len(v.elems.cs) == 1 and not isinstance(e.args[0], ast.List):
+            # np.array(list of numbers / of strings): the same sequence (strings and float64 values are carried unchanged)
+            self.used_models.add(TRUSTED)
+            return v
         s_ = set_of(self, st, v) if isinstance(v, V.Ref) else None
         if s_ is not None and s_["elem"] == R:
             # np.array(SortedSet of strings): the array of its elements in ascending order (string codes carried as reals)
